@@ -24,6 +24,10 @@ var solvers = []SolverCfg{
 	{"z3-new-5.1.0", []string{"z3-new", "-smt2"}},
 	{"z3-4.8.12", []string{"z3", "-smt2"}},
 	{"cvc5-1.0.3", []string{"cvc5", "--lang=smt2"}},
+	// the same solver with other random seeds: quantifier instantiation order is seed dependent, and an obligation the
+	// default seed does not decide is often decided at once by another one (race only, never stage 1)
+	{"z3-new-5.1.0/seed2", []string{"z3-new", "-smt2", "smt.random_seed=2", "sat.random_seed=2"}},
+	{"z3-new-5.1.0/seed7", []string{"z3-new", "-smt2", "smt.random_seed=7", "sat.random_seed=7"}},
 }
 
 // groundOnly: drop every quantified assumption (used to find candidate counterexamples quickly; a candidate is
@@ -173,6 +177,13 @@ func (prog *Program) discharge(obls []*Obligation, axioms []*Term, opt solveOpts
 			defer wg.Done()
 			sem <- struct{}{}
 			defer func() { <-sem }()
+			if o.NoRetry {
+				// listed open finding, expected to fail: a short budget, no case split
+				short := opt
+				short.timeout = minDur(opt.timeout, 10*time.Second)
+				solveOne(o, files[i], short)
+				return
+			}
 			solveSplit(o, files[i], opt, 0)
 		}(i, o)
 	}
@@ -208,97 +219,129 @@ func (prog *Program) discharge(obls []*Obligation, axioms []*Term, opt solveOpts
 }
 
 func solveOne(o *Obligation, file string, opt solveOpts) {
-	solveStages(context.Background(), o, file, opt, 0)
+	solvePortfolio(context.Background(), o, file, opt, 0, false)
 }
 
-// solveStages: stage 1 = primary solver with a short budget, stage 2 = race of all solvers. which: 0 both, 1 or 2 one of them.
-func solveStages(ctx context.Context, o *Obligation, file string, opt solveOpts, which int) {
+// solveSplit: the full strategy (portfolio plus case splits over control-flow joins).
+func solveSplit(o *Obligation, file string, opt solveOpts, depth int) {
+	solvePortfolio(context.Background(), o, file, opt, depth, true)
+}
+
+// stagger: when each member of the portfolio starts. Most obligations are decided by the first within a second or
+// two; the others are started only for obligations that are still open, so the easy ones cost one process.
+var stagger = []time.Duration{0, 5 * time.Second, 8 * time.Second, 8 * time.Second, 8 * time.Second}
+
+// portfolioOrder: indices into solvers in starting order: z3-new, z3-new with another seed, then the rest.
+var portfolioOrder = []int{0, 3, 4, 1, 2}
+
+// solvePortfolio decides one obligation: a staggered portfolio of solver configurations and, when the path condition
+// contains control-flow joins and allowSplit is set, a case split over the most recent join started beside them (each
+// case = the same query plus one selector; the cases are exhaustive because the disjunction of the selectors is itself
+// an assumption; up to three nested splits). The first proof (unsat) wins; a "sat" answer is final as well.
+func solvePortfolio(ctx context.Context, o *Obligation, file string, opt solveOpts, depth int, allowSplit bool) {
 	if o.Cover {
-		// vacuity check: run the two z3 versions briefly; "unsat" means the assumptions are contradictory
-		total := 0.0
-		var outs []string
-		for _, sc := range solvers[:1] {
-			st, out, secs := runSolver(ctx, sc, file, 3*time.Second)
-			total += secs
-			outs = append(outs, sc.Name+": "+firstLine(out))
-			if st == "unsat" {
-				o.Status, o.Solver, o.Seconds, o.Output = "unsat", sc.Name, total, strings.Join(outs, "; ")
-				return
-			}
-			if st == "sat" {
-				o.Status, o.Solver, o.Seconds, o.Output = "sat", sc.Name, total, strings.Join(outs, "; ")
-				return
-			}
+		// vacuity check: "unsat" means the assumptions are contradictory; any other answer passes
+		st, out, secs := runSolver(ctx, solvers[0], file, 3*time.Second)
+		o.Seconds, o.Output = secs, solvers[0].Name+": "+firstLine(out)
+		switch st {
+		case "unsat", "sat":
+			o.Status, o.Solver = st, solvers[0].Name
+		default:
+			o.Status, o.Solver = "not-refuted", ""
 		}
-		o.Status, o.Solver, o.Seconds, o.Output = "not-refuted", "", total, strings.Join(outs, "; ")
 		return
 	}
-	want := "unsat"
-	if o.Cover {
-		want = "sat"
-	}
-	total := 0.0
-	var outs []string
-	// stage 1: primary solver with a short budget; stage 2: race all
-	if which != 2 {
-		st, out, secs := runSolver(ctx, solvers[0], file, minDur(opt.timeout, 8*time.Second))
-		total += secs
-		outs = append(outs, solvers[0].Name+": "+firstLine(out))
-		if st == want {
-			o.Status, o.Solver, o.Seconds, o.Output = st, solvers[0].Name, total, strings.Join(outs, "; ")
-			return
-		}
-		if st == "sat" || st == "unsat" {
-			// definite opposite answer from the primary solver
-			o.Status, o.Solver, o.Seconds, o.Output = st, solvers[0].Name, total, strings.Join(outs, "; ")
-			return
-		}
-		if which == 1 {
-			o.Status, o.Solver, o.Seconds, o.Output = st, "", total, strings.Join(outs, "; ")
-			if st != "timeout" {
-				o.Status = "unknown"
-			}
-			return
-		}
-	}
 	type res struct {
-		sc   SolverCfg
+		who  string
 		st   string
 		out  string
 		secs float64
 	}
-	ch := make(chan res, len(solvers))
 	cctx, cancel := context.WithCancel(ctx)
 	defer cancel()
-	for _, sc := range solvers {
-		go func(sc SolverCfg) {
-			st, out, secs := runSolver(cctx, sc, file, opt.timeout)
-			ch <- res{sc, st, out, secs}
-		}(sc)
-	}
-	final := "unknown"
-	solver := ""
-	for range solvers {
-		r := <-ch
-		outs = append(outs, r.sc.Name+": "+firstLine(r.out))
-		if r.secs > 0 {
-			total += r.secs
+	n := 0
+	ch := make(chan res, len(solvers)+1)
+	t0 := time.Now()
+	for k, idx := range portfolioOrder {
+		if idx >= len(solvers) {
+			continue
 		}
-		if r.st == want {
-			final, solver = r.st, r.sc.Name
-			break
+		sc := solvers[idx]
+		delay := stagger[k]
+		if delay >= opt.timeout {
+			continue
 		}
-		if (r.st == "sat" || r.st == "unsat") && final == "unknown" {
-			if o.Cover && strings.HasPrefix(r.sc.Name, "cvc5") {
-				continue
+		n++
+		go func(sc SolverCfg, delay time.Duration) {
+			select {
+			case <-time.After(delay):
+			case <-cctx.Done():
+				ch <- res{sc.Name, "cancelled", "", 0}
+				return
 			}
-			final, solver = r.st, r.sc.Name
-			// a definite opposite answer: keep waiting briefly? accept it.
+			st, out, secs := runSolver(cctx, sc, file, opt.timeout-delay)
+			ch <- res{sc.Name, st, firstLine(out), secs}
+		}(sc, delay)
+	}
+	var subs []*Obligation
+	if allowSplit && o.Raw == "" && depth < 3 && len(o.Joins) > depth {
+		if txt, err := os.ReadFile(file); err == nil {
+			variants := o.Joins[len(o.Joins)-1-depth]
+			subs = make([]*Obligation, len(variants))
+			n++
+			go func() {
+				select {
+				case <-time.After(6 * time.Second):
+				case <-cctx.Done():
+					ch <- res{"case-split", "cancelled", "", 0}
+					return
+				}
+				var wg sync.WaitGroup
+				for i, v := range variants {
+					sub := &Obligation{Name: o.Name, Joins: o.Joins}
+					subs[i] = sub
+					f := fmt.Sprintf("%s.c%d", strings.TrimSuffix(file, ".smt2"), i) + ".smt2"
+					os.WriteFile(f, []byte(strings.Replace(string(txt), "(check-sat)", "(assert "+v+")\n(check-sat)", 1)), 0o644)
+					wg.Add(1)
+					go func(sub *Obligation, f string) {
+						defer wg.Done()
+						solvePortfolio(cctx, sub, f, opt, depth+1, true)
+					}(sub, f)
+				}
+				wg.Wait()
+				st, secs, via := "unsat", 0.0, ""
+				for _, sub := range subs {
+					secs += sub.Seconds
+					via = sub.Solver
+					if sub.Status != "unsat" {
+						st = "unknown" // a case without proof decides nothing about the whole (not even "sat")
+					}
+				}
+				ch <- res{"case-split(" + via + ")", st, fmt.Sprintf("case split over the %d cases of a control-flow join: %s", len(variants), st), secs}
+			}()
+		}
+	}
+	final, solver := "unknown", ""
+	var outs []string
+	total := 0.0
+	for ; n > 0; n-- {
+		r := <-ch
+		if r.st == "cancelled" {
+			continue
+		}
+		total += r.secs
+		outs = append(outs, r.who+": "+r.out)
+		if r.st == "unsat" || r.st == "sat" {
+			final, solver = r.st, r.who
 			break
 		}
 		if r.st == "timeout" && final == "unknown" {
 			final = "timeout"
 		}
+	}
+	cancel()
+	if wall := time.Since(t0).Seconds(); total < wall {
+		total = wall
 	}
 	o.Status, o.Solver, o.Seconds, o.Output = final, solver, total, strings.Join(outs, "; ")
 }
@@ -358,95 +401,6 @@ func joinVariants(t *Term) []string {
 		out = append(out, a.String())
 	}
 	return out
-}
-
-// solveSplit: stage 1; when it gives no answer and the path condition contains control-flow joins, the solver race and
-// a case split over the most recent join run side by side and the first proof wins (each case is the same query plus
-// one selector; the cases are exhaustive because the disjunction of the selectors is itself an assumption). Up to three
-// nested splits.
-func solveSplit(o *Obligation, file string, opt solveOpts, depth int) {
-	solveSplitCtx(context.Background(), o, file, opt, depth)
-}
-
-func solveSplitCtx(ctx context.Context, o *Obligation, file string, opt solveOpts, depth int) {
-	if o.Cover || o.Raw != "" || depth >= 3 || len(o.Joins) <= depth {
-		solveStages(ctx, o, file, opt, 0)
-		return
-	}
-	solveStages(ctx, o, file, opt, 1)
-	if o.Status == "unsat" || o.Status == "sat" {
-		return
-	}
-	txt, err := os.ReadFile(file)
-	if err != nil {
-		solveStages(ctx, o, file, opt, 2)
-		return
-	}
-	cctx, cancel := context.WithCancel(ctx)
-	defer cancel()
-	race := &Obligation{Name: o.Name}
-	done := make(chan string, 2)
-	go func() {
-		solveStages(cctx, race, file, opt, 2)
-		done <- "race"
-	}()
-	variants := o.Joins[len(o.Joins)-1-depth]
-	subs := make([]*Obligation, len(variants))
-	splitStatus := ""
-	go func() {
-		var wg sync.WaitGroup
-		for i, v := range variants {
-			sub := &Obligation{Name: o.Name, Joins: o.Joins}
-			subs[i] = sub
-			f := fmt.Sprintf("%s.c%d", strings.TrimSuffix(file, ".smt2"), i) + ".smt2"
-			os.WriteFile(f, []byte(strings.Replace(string(txt), "(check-sat)", "(assert "+v+")\n(check-sat)", 1)), 0o644)
-			wg.Add(1)
-			go func(sub *Obligation, f string) {
-				defer wg.Done()
-				solveSplitCtx(cctx, sub, f, opt, depth+1)
-			}(sub, f)
-		}
-		wg.Wait()
-		st := "unsat"
-		for _, sub := range subs {
-			switch {
-			case sub.Status == "sat":
-				st = "sat"
-			case sub.Status != "unsat" && st == "unsat":
-				st = sub.Status
-			}
-		}
-		splitStatus = st
-		done <- "split"
-	}()
-	first := <-done
-	decided := func(w string) bool {
-		if w == "race" {
-			return race.Status == "unsat" || race.Status == "sat"
-		}
-		return splitStatus == "unsat"
-	}
-	who := first
-	if !decided(first) {
-		second := <-done
-		if decided(second) {
-			who = second
-		} else {
-			who = "race"
-		}
-	}
-	cancel()
-	if who == "race" {
-		o.Status, o.Solver = race.Status, race.Solver
-		o.Seconds += race.Seconds
-		o.Output += "; " + race.Output
-		return
-	}
-	for _, sub := range subs {
-		o.Seconds += sub.Seconds
-	}
-	o.Status, o.Solver = "unsat", "case-split("+subs[len(subs)-1].Solver+")"
-	o.Output += fmt.Sprintf("; case split over the %d cases of a control-flow join: all unsat", len(variants))
 }
 
 // solverJobs: number of solver processes in flight = CPUs this process may run on (at most 16, at least 2).
